@@ -74,7 +74,7 @@ func (c *otApplyContext) applyForward(accel *otLayoutLookupAccelerator) bool {
 	buffer := c.buffer
 	for buffer.idx < len(buffer.Info) {
 		applied := false
-		if accel.digest.mayHave(gID(buffer.cur(0).Glyph)) &&
+		if accel.digest.mayHave(gid16(buffer.cur(0).Glyph)) &&
 			(buffer.cur(0).Mask&c.lookupMask) != 0 &&
 			c.checkGlyphProperty(buffer.cur(0), c.lookupProps) {
 			applied = accel.apply(c)
@@ -93,7 +93,7 @@ func (c *otApplyContext) applyBackward(accel *otLayoutLookupAccelerator) bool {
 	ret := false
 	buffer := c.buffer
 	for do := true; do; do = buffer.idx >= 0 {
-		if accel.digest.mayHave(gID(buffer.cur(0).Glyph)) &&
+		if accel.digest.mayHave(gid16(buffer.cur(0).Glyph)) &&
 			(buffer.cur(0).Mask&c.lookupMask != 0) &&
 			c.checkGlyphProperty(buffer.cur(0), c.lookupProps) {
 			applied := accel.apply(c)
@@ -294,7 +294,7 @@ func layoutSubstituteStart(font *Font, buffer *Buffer) {
 	hasClass := gdef.GlyphClassDef != nil
 	for i := range buffer.Info {
 		if hasClass {
-			buffer.Info[i].glyphProps = gdef.GlyphProps(gID(buffer.Info[i].Glyph))
+			buffer.Info[i].glyphProps = gdef.GlyphProps(gid16(buffer.Info[i].Glyph))
 		}
 		buffer.Info[i].ligProps = 0
 		buffer.Info[i].syllable = 0
